@@ -265,7 +265,8 @@ func (b *builder) paramSchema(style string) M {
 		}
 	}
 	if style == "deepObject" {
-		return M{"type": "object", "properties": M{"a": prim(), "b": prim(), "n": M{"type": "object", "properties": M{"x": prim()}}, "l": M{"type": "array", "items": prim()}}}
+		return M{"type": "object", "properties": M{"a": prim(), "b": prim(), "n": M{"type": "object", "properties": M{"x": prim()}}, "l": M{"type": "array", "items": prim()},
+			"lo": M{"type": "array", "items": M{"type": "object", "properties": M{"x": prim()}}}, "la": M{"type": "array", "items": M{"type": "array", "items": prim()}}}}
 	}
 	switch rapid.IntRange(0, 7).Draw(b.t, "pshape") {
 	case 0, 1, 2:
